@@ -3,7 +3,7 @@
 cd /verif
 fail=0
 for d in seeded/C*-*; do id=$(basename $d); p=${id%%-*}; [ -f $d/patch.diff ] || continue
-  r=$(MUTLINES=1 scripts/mut.sh $d/patch.diff $p 2>&1 | head -1)
+  r=$(MUTLINES=1 scripts/mut.sh $d/patch.diff $p 2>&1 | grep "PATCH FAILED\|tier=" | head -1)
   if echo "$r" | grep -q "PATCH FAILED"; then echo "NOAPPLY $id"; fail=1; continue; fi
   if echo "$r" | grep -q " 0 violated, 0 undecided"; then echo "MISSED $id"; fail=1; fi
 done
@@ -17,7 +17,7 @@ PY
 while read m props; do
   det=0
   for p in $props; do
-    r=$(MUTLINES=1 scripts/mut.sh $m $p 2>&1 | head -1)
+    r=$(MUTLINES=1 scripts/mut.sh $m $p 2>&1 | grep "PATCH FAILED\|tier=" | head -1)
     echo "$r" | grep -q "PATCH FAILED" && { echo "NOAPPLY $m"; fail=1; det=1; break; }
     echo "$r" | grep -q " 0 violated, 0 undecided" || det=1
   done
